@@ -34,7 +34,7 @@ CHECKS = {
         ref="DESIGN.md §3 C03"),
     "C04": dict(
         text="All 8 subsets S of three bounds (two of them instantiations of one generic trait) x sync / async / async ?Send x 7 declaration forms (inline, where, impl A+B, split, duplicated, and `?Sized` next to the bounds inline / in impl) x receiver by ref/by value "
-             "x 8 mock settings (none, mockall, mockall=false, mock_api only, mock_api+unimock, unimock=false, unimock=false+mockall, mock_api+mockall=false) x both crate features for single fns, and "
+             "x 9 mock settings (none, mockall, mockall=false, mock_api only, mock_api+unimock, unimock=false, unimock=false+mockall, mock_api+mockall=false, unimock+export without mock_api) x both crate features for single fns, and "
              "all 64 pairs (S1,S2) x receiver combinations x mock settings for two-fn modules (three-fn modules in thorough). Per state 48 runtime "
              "availability probes `implements!(X: Tr)` / `implements!(Impl<X>: Tr)` over probe types implementing exactly each subset in three auto-trait "
              "flavours (everything / Sync-only / Send-only) must equal the model's iff; a second naming scheme (two different traits whose paths end in the same segment) and modules whose fns carry an enabled or a disabled `#[cfg]` are enumerated too; plus a negative compile probe for 'static per declaration form.",
@@ -80,7 +80,7 @@ CHECKS = {
         note=NOTE, technique="bounded-exhaustive enumeration of module bodies; structural view of recorded expansion + executed client vs filter model",
         ref="DESIGN.md §3 C08"),
     "C09": dict(
-        text="The default trait plus every combination of <= 2 (quick) / <= 3 (thorough) deviations over 13 dimensions (attributes above / below entrait, "
+        text="The default trait plus every combination of <= 2 (quick) / <= 3 (thorough) deviations over 15 dimensions (attributes above / below entrait, "
              "visibility, unsafe, generics incl. lifetimes / defaults / const, supertraits, where clause, method attributes, parameter attributes, default body, associated "
              "types, parameter patterns, async (native / async_trait), a second method incl. generic and lifetime-carrying ones, 10 option sets incl. delegation targets with their own visibility) is "
              "expanded, compiled and run. The emitted trait is diffed field by field (syn) against the trait the macro received - only the documented async "
